@@ -56,15 +56,30 @@ fn segs_len(segs: &[Seg]) -> u64 {
 // ------------------------------------------------------------------ scripted source
 /// `Read` that hands out `data` in order; the size of each read comes from the schedule (clipped to
 /// [1, room] while data remain; after the schedule: as much as fits).  Never errors, 0 only at the end.
+/// Adaptive mode (after the fixed schedule is used up): the size is chosen from the length of the destination
+/// slice (= free buffer space): exactly 1/2, 1/3, 1/4, all, all-1 or 1, mixed per read from the seed.  The sizes
+/// actually returned are recorded; that concrete list is the schedule given to the model.
 struct Scripted {
     data: Arc<Vec<u8>>,
     off: usize,
     sched: VecDeque<u64>,
+    adaptive: Option<Rng>,
     reads: Arc<Mutex<u64>>,
+    returned: Arc<Mutex<Vec<u64>>>,
 }
 impl Scripted {
     fn new(data: Arc<Vec<u8>>, sched: &[u64]) -> Scripted {
-        Scripted { data, off: 0, sched: sched.iter().cloned().collect(), reads: Arc::new(Mutex::new(0)) }
+        Scripted::new_adaptive(data, sched, None)
+    }
+    fn new_adaptive(data: Arc<Vec<u8>>, sched: &[u64], adaptive: Option<u64>) -> Scripted {
+        Scripted {
+            data,
+            off: 0,
+            sched: sched.iter().cloned().collect(),
+            adaptive: adaptive.map(Rng::new),
+            reads: Arc::new(Mutex::new(0)),
+            returned: Arc::new(Mutex::new(vec![])),
+        }
     }
 }
 impl Read for Scripted {
@@ -74,11 +89,25 @@ impl Read for Scripted {
         if rest == 0 || buf.is_empty() {
             return Ok(0);
         }
+        let room = buf.len() as u64;
         let want = match self.sched.pop_front() {
             Some(k) => k.max(1),
-            None => buf.len() as u64,
+            None => match &mut self.adaptive {
+                None => room,
+                Some(rng) => match rng.below(10) {
+                    0..=3 => room / 2,
+                    4 => room / 3,
+                    5 => room / 4,
+                    6 => room,
+                    7 => room - 1,
+                    8 => 1,
+                    _ => (room / 2).saturating_sub(1),
+                }
+                .max(1),
+            },
         };
-        let n = (want.min(buf.len() as u64) as usize).min(rest);
+        let n = (want.min(room) as usize).min(rest);
+        self.returned.lock().unwrap().push(n as u64);
         buf[..n].copy_from_slice(&self.data[self.off..self.off + n]);
         self.off += n;
         Ok(n)
@@ -136,11 +165,14 @@ fn o_out(x: &Out) -> O {
 }
 
 /// runs the real reader; returns the events up to the first panic and the panic message if any
-fn run_trace(capacity: u64, low: u64, data: &Arc<Vec<u8>>, sched: &[u64], ops: &[Op]) -> (Vec<Ev>, Option<String>, bool) {
+fn run_trace(capacity: u64, low: u64, data: &Arc<Vec<u8>>, sched: &[u64], adaptive: Option<u64>, ops: &[Op]) -> (Vec<Ev>, Option<String>, bool, Vec<u64>) {
+    let src = Scripted::new_adaptive(data.clone(), sched, adaptive);
+    let returned = src.returned.clone();
+    let src = Mutex::new(Some(src));
     let evs: Mutex<Vec<Ev>> = Mutex::new(vec![]);
     let constructed = Mutex::new(false);
     let r = catch_loc(AssertUnwindSafe(|| {
-        let mut rd = LowMarkBufReader::new(Scripted::new(data.clone(), sched), capacity as usize, low as usize);
+        let mut rd = LowMarkBufReader::new(src.lock().unwrap().take().unwrap(), capacity as usize, low as usize);
         *constructed.lock().unwrap() = true;
         for o in ops {
             let out = match o {
@@ -163,7 +195,8 @@ fn run_trace(capacity: u64, low: u64, data: &Arc<Vec<u8>>, sched: &[u64], ops: &
         }
     }));
     let c = *constructed.lock().unwrap();
-    (evs.into_inner().unwrap(), r.err(), c)
+    let concrete = returned.lock().unwrap().clone();
+    (evs.into_inner().unwrap(), r.err(), c, concrete)
 }
 
 fn sat_add_signed(a: u64, d: i64) -> u64 {
@@ -297,12 +330,14 @@ fn drain<R: BufRead>(start: u32, reader: R) -> IterObs {
         sizes,
     }
 }
-fn run_iter_rd(capacity: u64, low: u64, data: &Arc<Vec<u8>>, sched: &[u64], start: u32) -> (Result<IterObs, String>, u64) {
-    let src = Scripted::new(data.clone(), sched);
+fn run_iter_rd(capacity: u64, low: u64, data: &Arc<Vec<u8>>, sched: &[u64], adaptive: Option<u64>, start: u32) -> (Result<IterObs, String>, u64, Vec<u64>) {
+    let src = Scripted::new_adaptive(data.clone(), sched, adaptive);
     let reads = src.reads.clone();
+    let returned = src.returned.clone();
     let r = catch_loc(AssertUnwindSafe(|| drain(start, LowMarkBufReader::new(src, capacity as usize, low as usize))));
     let n = *reads.lock().unwrap();
-    (r, n)
+    let concrete = returned.lock().unwrap().clone();
+    (r, n, concrete)
 }
 fn run_iter_whole(data: &Arc<Vec<u8>>, start: u32) -> Result<IterObs, String> {
     catch_loc(AssertUnwindSafe(|| drain(start, Cursor::new(&data[..]))))
@@ -562,9 +597,34 @@ fn call_site_config(repo: &str) -> Result<Vec<(String, u64, u64)>, String> {
 // ------------------------------------------------------------------ cases
 #[derive(Clone, Debug, Serialize, Deserialize)]
 enum CaseIn {
-    Trace { capacity: u64, low: u64, data: Vec<Seg>, sched: Vec<u64>, ops: Vec<Op> },
+    /// `adaptive`: seed of the adaptive read sizes used after `sched` (the model gets the sizes actually returned)
+    Trace {
+        capacity: u64,
+        low: u64,
+        data: Vec<Seg>,
+        sched: Vec<u64>,
+        ops: Vec<Op>,
+        #[serde(default)]
+        adaptive: Option<u64>,
+    },
     /// iterator over the reader; `coq_rd`: the model runs over the reader model (else over the whole buffer)
-    Iter { capacity: u64, low: u64, data: Vec<Seg>, sched: Vec<u64>, start: u32, coq_rd: bool, sched_kind: String, call_site: bool },
+    /// `clean_max`: the stream consists of well-formed frames only (true lengths, no marker inside, no garbage) and
+    /// this is the longest frame: with low mark >= clean_max + 4 every frame and the marker behind it are in view
+    /// whenever a frame is parsed, so the result must not depend on the schedule either
+    Iter {
+        capacity: u64,
+        low: u64,
+        data: Vec<Seg>,
+        sched: Vec<u64>,
+        start: u32,
+        coq_rd: bool,
+        sched_kind: String,
+        call_site: bool,
+        #[serde(default)]
+        adaptive: Option<u64>,
+        #[serde(default)]
+        clean_max: Option<u64>,
+    },
     /// position independence: `prefix` = whole well-formed storage frames, `rest` starts with one
     Pos { prefix: Vec<Seg>, nprefix: u32, rest: Vec<Seg>, start: u32 },
     /// the configuration of the production call sites is admissible for chunk independence
@@ -577,9 +637,15 @@ fn record(sink: &mut Sink, c: CaseIn, extra_tags: &[&str]) {
     let mut tags: Vec<String> = extra_tags.iter().map(|s| s.to_string()).collect();
     let mut cost: u64 = 0;
     let (input_coq, obs, verdict, nontrivial) = match &c {
-        CaseIn::Trace { capacity, low, data, sched, ops } => {
+        CaseIn::Trace { capacity, low, data, sched, ops, adaptive } => {
             let bytes = Arc::new(expand(data));
-            let (evs, panic, constructed) = run_trace(*capacity, *low, &bytes, sched, ops);
+            let (evs, panic, constructed, concrete) = run_trace(*capacity, *low, &bytes, sched, *adaptive, ops);
+            let sched = if adaptive.is_some() {
+                tags.push("sched_adaptive".into());
+                &concrete
+            } else {
+                sched
+            };
             let verdict = oracle_trace(*capacity, *low, &bytes, ops, &evs, &panic);
             let mut o: Vec<O> = evs.iter().map(|e| O::T(vec![o_out(&e.out), O::T(o_bytes(&e.win))])).collect();
             if panic.is_some() {
@@ -604,9 +670,15 @@ fn record(sink: &mut Sink, c: CaseIn, extra_tags: &[&str]) {
                 nontrivial,
             )
         }
-        CaseIn::Iter { capacity, low, data, sched, start, coq_rd, sched_kind, call_site } => {
+        CaseIn::Iter { capacity, low, data, sched, start, coq_rd, sched_kind, call_site, adaptive, clean_max } => {
             let bytes = Arc::new(expand(data));
-            let (r, nreads) = run_iter_rd(*capacity, *low, &bytes, sched, *start);
+            let (r, nreads, concrete) = run_iter_rd(*capacity, *low, &bytes, sched, *adaptive, *start);
+            let sched = if adaptive.is_some() {
+                tags.push("sched_adaptive".into());
+                &concrete
+            } else {
+                sched
+            };
             let w = run_iter_whole(&bytes, *start);
             // rough cost of evaluating the model (lists): loop turns x window + reads x buffer
             let turns = |x: &Result<IterObs, String>| x.as_ref().map(|o| o.msgs.len() as u64 + o.counters[2] + 1).unwrap_or(1);
@@ -620,7 +692,11 @@ fn record(sink: &mut Sink, c: CaseIn, extra_tags: &[&str]) {
             if *call_site {
                 tags.push("iter_call_site_config".into());
             }
-            let in_domain = *low >= LOOKAHEAD || *call_site;
+            let clean = clean_max.map(|m| m + 4 <= *low).unwrap_or(false);
+            if clean {
+                tags.push("iter_clean_frames_fit_low_mark".into());
+            }
+            let in_domain = *low >= LOOKAHEAD || *call_site || clean;
             let overflow = |x: &Result<IterObs, String>| x.as_ref().err().map(|e| e.contains("overflow")).unwrap_or(false) && (*start as u64 + bytes.len() as u64 / 8 + 1 > u32::MAX as u64);
             let verdict = match (&r, &w) {
                 _ if overflow(&r) || overflow(&w) => Verdict::Ok, // 2^32 messages: outside the quantifier
@@ -822,7 +898,7 @@ fn gen_trace(rng: &mut Rng, big: bool) -> CaseIn {
         };
         ops.push(o);
     }
-    CaseIn::Trace { capacity, low, data, sched, ops }
+    CaseIn::Trace { capacity, low, data, sched, ops, adaptive: None }
 }
 
 fn gen_iter(rng: &mut Rng, big: bool, call_sites: &[(String, u64, u64)]) -> CaseIn {
@@ -845,7 +921,7 @@ fn gen_iter(rng: &mut Rng, big: bool, call_sites: &[(String, u64, u64)]) -> Case
         }
         let (mut sched, name) = gen_sched(rng, kind, total, &bounds, low);
         sched.truncate(600);
-        CaseIn::Iter { capacity, low, data, sched, start, coq_rd: true, sched_kind: name.into(), call_site: false }
+        CaseIn::Iter { capacity, low, data, sched, start, coq_rd: true, sched_kind: name.into(), call_site: false, adaptive: None, clean_max: None }
     } else {
         // the theorem's domain: low mark >= LOOKAHEAD, capacities up to 512 KiB; model = whole buffer
         let use_site = !call_sites.is_empty() && rng.chance(1, 3);
@@ -861,7 +937,7 @@ fn gen_iter(rng: &mut Rng, big: bool, call_sites: &[(String, u64, u64)]) -> Case
         let total = segs_len(&data);
         let kind = rng.below(8);
         let (sched, name) = gen_sched(rng, kind, total, &bounds, low);
-        CaseIn::Iter { capacity, low, data, sched, start, coq_rd: false, sched_kind: name.into(), call_site: use_site }
+        CaseIn::Iter { capacity, low, data, sched, start, coq_rd: false, sched_kind: name.into(), call_site: use_site, adaptive: None, clean_max: None }
     }
 }
 
@@ -935,7 +1011,90 @@ fn gen_max_frame(rng: &mut Rng, sites: &[(String, u64, u64)]) -> CaseIn {
     } else {
         (LOOKAHEAD + CL + rng.below(3) * CL, LOOKAHEAD)
     };
-    CaseIn::Iter { capacity, low, data: v, sched, start: rng.below(1000) as u32, coq_rd: false, sched_kind: "max_frame_then_rest".into(), call_site: use_site }
+    CaseIn::Iter { capacity, low, data: v, sched, start: rng.below(1000) as u32, coq_rd: false, sched_kind: "max_frame_then_rest".into(), call_site: use_site, adaptive: None, clean_max: None }
+}
+
+/// `n` well-formed storage frames whose total sizes lie in [lo, hi]; returns the segments, the frame boundaries
+/// and the longest frame (None if a marker happens to occur anywhere but at the frame starts)
+fn clean_frames(rng: &mut Rng, n: u64, lo: u64, hi: u64) -> (Vec<Seg>, Vec<u64>, Option<u64>) {
+    let mut v = vec![];
+    let mut bounds = vec![];
+    let mut max = 0;
+    for _ in 0..n {
+        let total = rng.range(lo.max(46), hi.max(46));
+        let before = segs_len(&v);
+        // header = 16 + 4 + optional fields (<= 22)
+        let f = good_frame(rng, total - 46);
+        v.extend(f);
+        let len = segs_len(&v) - before;
+        max = max.max(len);
+        bounds.push(segs_len(&v));
+    }
+    let bytes = expand(&v);
+    let markers = bytes.windows(4).filter(|w| w == b"DLT\x01" || w == b"DLS\x01").count() as u64;
+    (v, bounds, if markers == n { Some(max) } else { None })
+}
+
+/// adaptive read sizes (1/2, 1/3, 1/4 of the free space, all, all-1, 1) with tight capacities
+fn gen_adaptive_trace(rng: &mut Rng) -> CaseIn {
+    let low = *rng.pick(&[64u64, 1000, 3000, 4096, 4097, 5000]);
+    let capacity = low + CL + if rng.chance(1, 2) { rng.below(4) } else { rng.range(0, low) };
+    let total = rng.range(low, 60000);
+    let data = vec![Seg::Ramp(rng.below(251) as u8, rng.range(1, 9) as u8, total)];
+    let sched = match rng.below(3) {
+        0 => vec![capacity],
+        1 => vec![capacity / 2],
+        _ => vec![],
+    };
+    let mut ops = vec![];
+    for _ in 0..rng.range(4, 24) {
+        ops.push(match rng.below(12) {
+            0..=3 => Op::Fill,
+            4..=5 => Op::Consume(rng.range(low * 4 / 10, low * 9 / 10)),
+            // leaves only a little in a full buffer
+            6..=8 => Op::Consume(capacity - rng.range(0, (low * 6 / 10).min(capacity))),
+            9 => Op::Consume(rng.range(low, capacity)),
+            10 => Op::Read(rng.range(1, low)),
+            _ => Op::SeekCur(-(rng.range(0, 300) as i64)),
+        });
+        if rng.chance(1, 2) {
+            ops.push(Op::Fill);
+        }
+    }
+    CaseIn::Trace { capacity, low, data, sched, ops, adaptive: Some(rng.next()) }
+}
+
+fn gen_adaptive_iter(rng: &mut Rng, big: bool) -> CaseIn {
+    let (low, coq_rd) = if big { (LOOKAHEAD, false) } else { (*rng.pick(&[1000u64, 2000, 4096, 4096]), true) };
+    let capacity = low + CL + if rng.chance(1, 2) { rng.below(4) } else { rng.range(0, low) };
+    let n = if big { rng.range(2, 6) } else { rng.range(3, 12) };
+    let hi = (low * 97 / 100).min(low - 4).min(65535 + 16);
+    let lo = if rng.chance(1, 2) { low * 8 / 10 } else { low * 4 / 10 };
+    let (mut data, bounds, clean_max) = clean_frames(rng, n, lo, hi);
+    let mut clean_max = clean_max;
+    if big && rng.chance(1, 3) {
+        data.extend(gen_garbage(rng, true));
+        let psz = rng.size(30);
+        data.extend(good_frame(rng, psz));
+        clean_max = None;
+    }
+    let sched = match rng.below(4) {
+        0 => vec![capacity],
+        1 => vec![bounds[0]],
+        _ => vec![],
+    };
+    CaseIn::Iter {
+        capacity,
+        low,
+        data,
+        sched,
+        start: rng.below(1000) as u32,
+        coq_rd,
+        sched_kind: "adaptive".into(),
+        call_site: false,
+        adaptive: Some(rng.next()),
+        clean_max,
+    }
 }
 
 fn main() {
@@ -964,6 +1123,7 @@ fn main() {
             data: vec![Seg::Ramp(0, 1, 20000)],
             sched: vec![],
             ops: vec![Op::Fill, Op::Consume(12188), Op::Fill, Op::SeekStart(12187), Op::Read(1), Op::SeekCur(0), Op::SeekStart(12188 - 100), Op::Read(3)],
+            adaptive: None,
         },
         &["corpus", "witness_seek_after_compaction"],
     );
@@ -976,6 +1136,7 @@ fn main() {
             data: vec![Seg::Ramp(0, 1, 8203)],
             sched: vec![],
             ops: vec![Op::SeekStart(4096), Op::SeekStart(4097), Op::SeekStart(8192), Op::SeekStart(8193), Op::SeekStart(0), Op::Consume(4097), Op::Fill, Op::SeekStart(0), Op::SeekCur(0), Op::SeekCur(-1)],
+            adaptive: None,
         },
         &["corpus"],
     );
@@ -985,7 +1146,7 @@ fn main() {
         for sched in [vec![65551u64], vec![65551, 4], vec![]] {
             record(
                 &mut sink,
-                CaseIn::Iter { capacity: cap, low, data: w.clone(), sched, start: 0, coq_rd: cap <= 128 * 1024, sched_kind: "max_frame_then_rest".into(), call_site: site },
+                CaseIn::Iter { capacity: cap, low, data: w.clone(), sched, start: 0, coq_rd: cap <= 128 * 1024, sched_kind: "max_frame_then_rest".into(), call_site: site, adaptive: None, clean_max: None },
                 &["corpus", "witness_max_frame_embedded_marker"],
             );
         }
@@ -993,9 +1154,35 @@ fn main() {
     // the same stream with a low mark of exactly one maximum frame: chunk dependent (model must predict it)
     record(
         &mut sink,
-        CaseIn::Iter { capacity: 65551 + CL, low: 65551, data: w.clone(), sched: vec![65551], start: 0, coq_rd: true, sched_kind: "max_frame_then_rest".into(), call_site: false },
+        CaseIn::Iter { capacity: 65551 + CL, low: 65551, data: w.clone(), sched: vec![65551], start: 0, coq_rd: true, sched_kind: "max_frame_then_rest".into(), call_site: false, adaptive: None, clean_max: None },
         &["corpus", "witness_max_frame_embedded_marker"],
     );
+
+    // a short read of exactly half of the free space after a compaction with a tight capacity (8192 / 4096):
+    // six 3500-byte frames, schedule 8192, 2048, 2048, ...; the look-ahead at offset 7000 must reach the low mark
+    // and the iterator must yield 6 of 6
+    {
+        let mut r2 = Rng::new(4);
+        let (frames, _, cm) = clean_frames(&mut r2, 6, 3500, 3500);
+        let mut sched = vec![8192u64];
+        sched.extend(std::iter::repeat(2048).take(16));
+        let mut ops = vec![];
+        for _ in 0..6 {
+            ops.push(Op::Fill);
+            ops.push(Op::Consume(3500));
+        }
+        ops.push(Op::Fill);
+        record(
+            &mut sink,
+            CaseIn::Trace { capacity: 8192, low: 4096, data: frames.clone(), sched: sched.clone(), ops, adaptive: None },
+            &["corpus", "witness_half_of_free_space"],
+        );
+        record(
+            &mut sink,
+            CaseIn::Iter { capacity: 8192, low: 4096, data: frames, sched, start: 0, coq_rd: true, sched_kind: "half_of_free_space".into(), call_site: false, adaptive: None, clean_max: cm },
+            &["corpus", "witness_half_of_free_space"],
+        );
+    }
 
     // ---- generated
     let (nt, ni, np) = match a.tier.as_str() {
@@ -1020,6 +1207,14 @@ fn main() {
     for _ in 0..scale(np / 4) {
         let c = gen_max_frame(&mut rng, &sites);
         record(&mut sink, c, &["max_frame_embedded"]);
+    }
+    for _ in 0..scale(np) {
+        let c = gen_adaptive_trace(&mut rng);
+        record(&mut sink, c, &[]);
+    }
+    for i in 0..scale(np) {
+        let c = gen_adaptive_iter(&mut rng, i % 3 == 2);
+        record(&mut sink, c, &[]);
     }
     sink.finish();
 }
